@@ -51,7 +51,7 @@ fn debug() -> bool { std::env::var("VH_DEBUG").is_ok() }
 // ------------------------------------------------------------------ ports
 /// Two listener ports outside the ephemeral range, derived from the pid so that
 /// the shards of one check (and concurrent checks) do not collide; probed.
-fn pick_ports(n: usize) -> Vec<u16> {
+pub fn pick_ports(n: usize) -> Vec<u16> {
     let mut out = vec![];
     let mut p = 12000 + ((std::process::id() as u64 * 7) % 18000) as u16;
     let mut tries = 0;
@@ -66,7 +66,7 @@ fn pick_ports(n: usize) -> Vec<u16> {
 }
 
 // ------------------------------------------------------------------ HTTP client (HTTP/1.1, one request per connection)
-fn http_get(port: u16, path: &str) -> Option<(u16, String)> {
+pub fn http_get(port: u16, path: &str) -> Option<(u16, String)> {
     let mut s = TcpStream::connect_timeout(&SocketAddr::from((Ipv4Addr::LOCALHOST, port)), Duration::from_millis(2000)).ok()?;
     s.set_read_timeout(Some(Duration::from_millis(STALL_MS))).ok()?;
     s.set_nodelay(true).ok()?;
@@ -94,7 +94,7 @@ fn dechunk(mut b: &str) -> String {
 
 // ------------------------------------------------------------------ Prometheus text
 /// value of `rotonda_<name>{...}` whose label set contains all of `labels`, summed over the matching series
-fn metric_sum(text: &str, name: &str, labels: &[(&str, &str)]) -> Option<u64> {
+pub fn metric_sum(text: &str, name: &str, labels: &[(&str, &str)]) -> Option<u64> {
     let full = format!("rotonda_{name}");
     let mut sum = None;
     for l in text.lines() {
@@ -139,21 +139,21 @@ fn case_dir() -> PathBuf {
     cache.join("e2e").join(format!("{}-{}", std::process::id(), N.fetch_add(1, Ordering::SeqCst)))
 }
 
-struct Conn {
-    stream: TcpStream,
+pub struct Conn {
+    pub stream: TcpStream,
     written: u64,
-    rid: Option<u32>,
+    pub rid: Option<u32>,
     counts: Vec<u64>,       // messages counted for this connection per template variant of the router id
     shown: Option<usize>,   // the variant under which the latest message was counted
 }
 
-struct World {
+pub struct World {
     rt: Option<tokio::runtime::Runtime>,
     mgr: Manager,
     bmp_port: u16,
-    http_port: u16,
+    pub http_port: u16,
     spare_ports: Vec<u16>,
-    conns: BTreeMap<u32, Conn>,
+    pub conns: BTreeMap<u32, Conn>,
     accepted: u64,
     lost: u64,
     binds: u64,
@@ -162,7 +162,7 @@ struct World {
     ids_of: BTreeMap<u32, Vec<u32>>,  // router key -> the different ingress ids it has been given
     rids: BTreeMap<u32, u32>,        // router ingress id -> router key k (every id ever seen for k)
     notes: Vec<(u32, usize)>,        // (k, pool index): a Peer Up of that wire identity was taken by the session
-    stalled: Option<String>,
+    pub stalled: Option<String>,
     dir: Option<PathBuf>,            // the case's files (cases with F / W / Y ops)
     desired: Desired,
     bgp_port: u16,
@@ -201,7 +201,7 @@ fn config_file(dir: &Option<PathBuf>, text: String) -> ConfigFile {
 
 impl World {
     /// What src/main.rs does: load the config through the manager, start the HTTP server, spawn the units.
-    fn start(files: bool, script: u32) -> World {
+    pub fn start(files: bool, script: u32) -> World {
         let ports = pick_ports(5);
         if std::env::var("VH_E2E_LOG").is_ok() { let _ = Config::init(); }
         let desired = Desired { script, file_no: 0, rib2: 0 };
@@ -231,7 +231,7 @@ impl World {
         w
     }
 
-    fn stop(mut self) {
+    pub fn stop(mut self) {
         self.conns.clear();
         // Manager::terminate waits, spinning, until every unit has closed its command channel. A case that stalled may have
         // left a unit that no longer takes commands (that is what the stall reports): then the runtime is dropped with its tasks.
@@ -248,7 +248,7 @@ impl World {
         if s != 0 { std::fs::write(d.join(script_name(self.desired.file_no)), script_text(s)).expect("write script"); }
     }
 
-    fn get(&self, path: &str) -> Option<(u16, String)> { http_get(self.http_port, path) }
+    pub fn get(&self, path: &str) -> Option<(u16, String)> { http_get(self.http_port, path) }
     fn metrics(&self) -> String { self.get("/metrics").map(|x| x.1).unwrap_or_default() }
 
     /// polls `f` over fresh GET /metrics texts until it holds; marks the case stalled otherwise
@@ -324,7 +324,7 @@ impl World {
         }
     }
 
-    fn connect(&mut self, k: u32) {
+    pub fn connect(&mut self, k: u32) {
         let local = SocketAddr::from((Ipv4Addr::new(127, 0, 0, 10 + k as u8), 0));
         let remote = SocketAddr::from((Ipv4Addr::LOCALHOST, self.bmp_port));
         let rt = self.rt.as_ref().unwrap();
@@ -394,7 +394,7 @@ impl World {
     }
 
     /// writes one BMP message on router k's connection and waits until it has been processed
-    fn send(&mut self, k: u32, bytes: &[u8]) -> String {
+    pub fn send(&mut self, k: u32, bytes: &[u8]) -> String {
         let c = self.conns.get_mut(&k).unwrap();
         // (a write on a connection the unit has closed may fail: then the lost counter tells)
         let _ = c.stream.write_all(bytes);
@@ -417,7 +417,7 @@ impl World {
         self.metrics()
     }
 
-    fn disconnect(&mut self, k: u32) {
+    pub fn disconnect(&mut self, k: u32) {
         let sent = |t: &str| metric_sum(t, "num_updates_total", &[("component", UNIT)]).unwrap_or(0);
         let sent_before = sent(&self.metrics());
         let c = self.conns.remove(&k).unwrap();
